@@ -32,6 +32,8 @@ def run(res, replay=None):
     import translate_step; (res.proof is not None) and translate_step.run(res.proof, pid=res.pid, tie='loops')
     # structural tie of phasegen/rewards.py: translate the CURRENT source and re-check proofs/GenRewardsEquiv.v against it
     import translate_step; (res.proof is not None) and translate_step.run(res.proof, pid=res.pid, tie='rewards')
+    # pinned reading of the SFS assembly incl. SFSDistribution.accumulate / get_accumulation (center and permute handed on to every bin): re-check the CURRENT source against it and proofs/GenSfsEquiv.v
+    import translate_step; (res.proof is not None) and translate_step.run(res.proof, pid=res.pid, tie='sfs')
     rng = random.Random(res.seed)
     res.rule = ('routes stream: random configurations (n<=4, 1-2 demes, three models, 1-2 epochs) and random reward tuples of '
                 'order 2-3 built from the public reward classes incl. nested Sum/Product/Combined: central = binomial '
